@@ -61,6 +61,17 @@ def generate(seed, tier="quick"):
             op = {"op": "connect", "pre": o.randrange(1 << 16), "post": o.randrange(1 << 16), "cls": o.choice(types_), "name": None}
             if dw.dry_apply(op) == "accept":
                 ops.append(op)
+        if dw.ref.edges and o.random() < 0.5:
+            # a clamp and a recording of a synaptic state on the *last* synapse (its index within its type differs from
+            # its global index when types are interleaved): integrate translates these indices on every invocation
+            e_ = len(dw.ref.edges) - 1
+            syn_ = [s_ for s_ in dw.ref.syns if s_["name"] == dw.ref.edges[e_]["type"]][0]
+            if syn_["states"]:
+                st_ = o.choice(sorted(syn_["states"]))
+                for op in ({"op": "clamp", "view": [["select_edges", {"t": "list", "v": [e_]}]], "state": st_, "len": N, "seed": o.randrange(1 << 30), "two_d": False},
+                           {"op": "record", "view": [["select_edges", {"t": "list", "v": [e_]}]], "state": st_}):
+                    if dw.dry_apply(op) == "accept":
+                        ops.append(op)
     if not dw.ref.recordings:
         op = {"op": "record", "view": [], "state": "v"}
         dw.dry_apply(op)
